@@ -6,18 +6,26 @@ not behaviour-preserving after all -- to be triaged by hand."""
 import json, os, subprocess, sys, shutil, time
 from pathlib import Path
 ROOT = Path(__file__).resolve().parent.parent
-out, pid = Path(sys.argv[1]), sys.argv[2]
+# `tools/benign_ext.py rerun <ID-N>` re-applies validation/benign_ext/<ID-N>/patch.diff (3-way if the tree moved on)
+RERUN = sys.argv[1] == "rerun"
+if RERUN:
+    _d = ROOT / "validation" / "benign_ext" / sys.argv[2]
+    out, pid = _d, sys.argv[2].split("-")[0]
+else:
+    out, pid = Path(sys.argv[1]), sys.argv[2]
 ALL = [f"C{i:02d}" for i in range(1, 21)]
 FILEMAP = {"qartod.py": ["C01", "C02", "C15", "C16", "C17"], "argo.py": ["C01", "C02", "C10", "C13", "C15", "C16", "C17"],
            "axds.py": ["C01", "C02", "C03", "C15", "C16", "C17"], "utils.py": ["C01", "C03", "C07", "C08", "C10", "C14", "C15", "C17", "C19"],
            "results.py": ["C04", "C05", "C06", "C18", "C19"], "streams.py": ["C04", "C05", "C06", "C18", "C19"],
            "config.py": ["C05", "C07", "C18"], "stores.py": ["C04", "C19"], "fx_parser.py": ["C20"], "config_creator.py": ["C20"]}
 checks_arg = sys.argv[3].split(",") if len(sys.argv) > 3 else None
-for diff in sorted(out.glob("refactor?.diff")):
-    n = diff.stem[-1]
+for diff in (sorted(out.glob("refactor?.diff")) if not RERUN else [out / "patch.diff"]):
+    n = diff.stem[-1] if not RERUN else sys.argv[2].split("-")[1]
     if os.environ.get("ONLY") and n not in os.environ["ONLY"].split(","):
         continue
     meta = json.loads((out / f"meta{n}.json").read_text()) if (out / f"meta{n}.json").exists() else {}
+    if RERUN:
+        meta = json.loads((out / "meta.json").read_text())
     wt = Path(f"/tmp/vf-scratch-bext-{pid}-{n}")
     subprocess.run(f"git -C /repo worktree add -q --detach {wt} HEAD", shell=True, check=True, capture_output=True)
     res = {"checks": {}}
@@ -25,6 +33,8 @@ for diff in sorted(out.glob("refactor?.diff")):
     checks = checks_arg or sorted({pid, *(c for f in touched for c in FILEMAP.get(f, ALL))})
     try:
         r = subprocess.run(f"git -C {wt} apply {diff.resolve()}", shell=True, capture_output=True, text=True)
+        if r.returncode:
+            r = subprocess.run(f"git -C {wt} apply --3way {diff.resolve()}", shell=True, capture_output=True, text=True)
         if r.returncode:
             print(pid, n, "does not apply:", r.stderr[-200:]); continue
         t = subprocess.run("/venv/bin/python -m pytest -q -x -p no:cacheprovider --timeout=900 tests -k 'not performance' "
@@ -41,7 +51,8 @@ for diff in sorted(out.glob("refactor?.diff")):
         shutil.rmtree(wt, ignore_errors=True)
     dest = ROOT / "validation" / "benign_ext" / f"{pid}-{n}"
     dest.mkdir(parents=True, exist_ok=True)
-    shutil.copy(diff, dest / "patch.diff")
+    if not RERUN:
+        shutil.copy(diff, dest / "patch.diff")
     meta.update({"origin": "independent sub-agent asked for a behaviour-preserving refactor", **res})
     (dest / "meta.json").write_text(json.dumps(meta, indent=1))
     bad = {c: v for c, v in res["checks"].items() if v["rc"] != 0}
